@@ -373,7 +373,7 @@ bool invoke(const fi::Scen& sc, hx::Rng saved, Ctx& c, bool& leaked_key_seen, st
   std::string site, detail;
   scrub_stack();
   if (leak_check(site, detail)) {
-    std::string key = injected ? "C14.leak." + std::string(sc.name) + ":" + site : "harness.bug.faultinj.nofault." + std::string(sc.name) + ".leak:" + site;
+    std::string key = injected ? "C14.leak." + std::string(sc.name) + ":" + site : "nofault." + std::string(sc.name) + ".leak:" + site;
     if (leak_keys.insert(key).second) hx::violation(key, c.where() + " exception=" + (c.threw ? c.exc : "none") + " :: " + detail);
     else hx::count("leak.repeats_in_case");
     leaked_key_seen = true;
@@ -632,7 +632,7 @@ void run_case(uint64_t) {
   o << " :: " << ctx << " :: " << rep.substr(0, 1200);
   hx::st().trace = "(child died) scenario " + scen + " mode " + mode + (g_sh ? " k=" + std::to_string(g_sh->k) + " stage " + g_sh->stage : "");
   std::string fam = mode == "reject" ? "reject" : (mode == "abandon" || mode == "weight") ? "abandon" : (mode == "alloc" ? "alloc" : "nofault");
-  std::string key = fam == "nofault" ? "harness.bug.faultinj.nofault." + scen + ".crash:" + cls : "C14." + fam + "." + scen + ".crash:" + cls;
+  std::string key = fam == "nofault" ? "nofault." + scen + ".crash:" + cls : "C14." + fam + "." + scen + ".crash:" + cls;
   hx::violation(key, o.str());
   hx::count("child_deaths");
 }
